@@ -63,6 +63,14 @@ func findQueue(w *World) *queueA {
 			if b, ok := ft.(*types.Basic); ok && b.Kind() == types.Uint64 {
 				kf = st.Field(i).Name()
 			}
+			// the key may be promoted from an embedded struct
+			if es, ok := ft.Underlying().(*types.Struct); ok && st.Field(i).Embedded() && kf == "" {
+				for j := 0; j < es.NumFields(); j++ {
+					if b, ok := es.Field(j).Type().(*types.Basic); ok && b.Kind() == types.Uint64 {
+						kf = es.Field(j).Name()
+					}
+				}
+			}
 		}
 		if wf != "" && hasCtx {
 			qa.Item, qa.WaitFld, qa.KeyFld = nt, wf, kf
@@ -108,6 +116,23 @@ func findQueue(w *World) *queueA {
 }
 
 func (q *queueA) isItem(t types.Type) bool { return types.Identical(deref(t), q.Item) }
+
+// itemBase: fa addresses a field of a waiter - directly, or promoted through embedded structs;
+// returns the waiter the field belongs to.
+func (q *queueA) itemBase(fa *ssa.FieldAddr) (ssa.Value, bool) {
+	x := fa.X
+	for d := 0; d < 4; d++ {
+		if q.isItem(x.Type()) {
+			return x, true
+		}
+		inner, ok := x.(*ssa.FieldAddr)
+		if !ok || !embeddedStructField(inner) {
+			return nil, false
+		}
+		x = inner.X
+	}
+	return nil, false
+}
 
 // answer: send on / close of the waiter channel; returns the waiter value.
 func (q *queueA) answerOf(in ssa.Instruction) ssa.Value {
@@ -194,7 +219,7 @@ func checkC11(w *World, r *Report) {
 		ob.Undecided("anchors", "no type in package storage with a for-select event loop and a waiter struct (chan error + context)")
 		return
 	}
-	c11Forwarding(w, r, q)
+	c11Forwarding(w, r, q, "C11.a", "a-wait-before-ack")
 	c11Notify(w, r, q)
 	c11AnswerRemove(w, r, q)
 	c11StableKey(w, r, q)
@@ -202,8 +227,8 @@ func checkC11(w *World, r *Report) {
 	c05Batching(w, r, "C11.f", "f-announced-index-not-ahead")
 }
 
-func c11Forwarding(w *World, r *Report, q *queueA) {
-	ob := r.Ob("C11.a", "a-wait-before-ack", "in ForwardingKVServer.Put/DeleteRange/Txn every return that hands out the leader's response returns as error the value received from q.Add(ctx, string(req.Table), resp.Header.Revision)", "an acknowledgement that does not wait for the local apply breaks read-your-writes on the follower")
+func c11Forwarding(w *World, r *Report, q *queueA, id, slug string) {
+	ob := r.Ob(id, slug, "in ForwardingKVServer.Put/DeleteRange/Txn every return that hands out the leader's response returns as error the value received from q.Add(ctx, string(req.Table), resp.Header.Revision)", "an acknowledgement that does not wait for the local apply breaks read-your-writes on the follower")
 	for _, m := range []string{"Put", "DeleteRange", "Txn"} {
 		fn := w.Func("regattaserver", "ForwardingKVServer."+m)
 		if fn == nil {
@@ -795,11 +820,15 @@ func c11StableKey(w *World, r *Report, q *queueA) {
 				return
 			}
 			fa, ok := st.Addr.(*ssa.FieldAddr)
-			if !ok || !q.isItem(fa.X.Type()) || fieldAddrName(fa) != q.KeyFld {
+			if !ok || fieldAddrName(fa) != q.KeyFld {
+				return
+			}
+			base, isItem := q.itemBase(fa)
+			if !isItem {
 				return
 			}
 			ob.Site(in.Pos(), "store to waiter."+q.KeyFld+" in "+FnName(fn))
-			if al, ok := fa.X.(*ssa.Alloc); !ok || al.Parent() != fn {
+			if al, ok := base.(*ssa.Alloc); !ok || al.Parent() != fn {
 				ob.Violate("key-mutated@"+FnName(fn), in.Pos(), "the heap key of an existing waiter is overwritten in "+FnName(fn))
 			}
 		})
